@@ -439,6 +439,20 @@ Definition rebuild_schedule (oc : bool) (I cap nu63 funding tip : Z) (pend ws ds
   end.
 
 (* ------------------------------------------------------------------------------------------ *)
+(** * Parameter plumbing: [SchedulingParams::new], [new_with_default_distributions] and the wallet
+      adapter's [WalletMigration::scheduling_params] (wallet.rs). The result is
+      (interval, transfer mean, transfer cap, preparation mean, preparation cap): configured delays
+      go to their own slots; without an override every delay is the ZIP 318 value scaled to the
+      interval. *)
+Definition default_delays (I : Z) : Z * Z * Z * Z :=
+  (scale_delay I TRANSFER_DELAY_MEAN, scale_delay I TRANSFER_DELAY_CAP,
+   scale_delay I PREP_DELAY_MEAN, scale_delay I PREP_DELAY_CAP).
+
+Definition scheduling_params (I : Z) (cfg : option (Z * Z * Z * Z)) : Z * Z * Z * Z * Z :=
+  let '(tm, tc, pm, pc) := match cfg with Some q => q | None => default_delays I end in
+  (I, tm, tc, pm, pc).
+
+(* ------------------------------------------------------------------------------------------ *)
 (** * Classification *)
 
 Record evidence := mkEv {
